@@ -284,7 +284,7 @@ def make_jobs(tier, seed):
                 for stop in (False, True):
                     for fast in (False, True):
                         combos.append((lev, side, pattern, stop, fast))
-    reps = 3 if tier == 'quick' else 24
+    reps = 3 if tier == 'quick' else 150
     for rep in range(reps):
         for lev, side, pattern, stop, fast in combos:
             mode = 'isolated'
